@@ -58,7 +58,7 @@ def gen_cases(tier, seed):
     for i in range(nrand):
         L = int(rng.integers(4, 9))
         batch.append({"init": INITS[i % 3], "ops": [int(v) for v in rng.integers(0, len(OPS), L)], "cell": CELLS[(i // 3 + i) % len(CELLS)],
-                      "fsf": 1.07 if rng.integers(5) == 0 else None})  # (i//3 + i): every cell meets every initial NAC state
+                      "fsf": 1.07 if rng.integers(5) == 0 else None, "order": ["asis", "interleave"][int(rng.integers(2))]})  # (i//3 + i): every cell meets every initial NAC state
         if len(batch) == 10:
             cases.append({"kind": "histories", "batch": batch, "seed": int(rng.integers(10 ** 6)), "_cost": 30})
             batch = []
@@ -73,13 +73,13 @@ def gen_cases(tier, seed):
 class World:
     """One Phonopy instance under test plus everything the harness needs to act on it."""
 
-    def __init__(self, cell, init, seed, fsf=None):
+    def __init__(self, cell, init, seed, fsf=None, order="asis"):
         import warnings
 
         from vlib.gen import crystals, models, nac as nacgen, setup
 
         self.setup, self.models, self.nacgen = setup, models, nacgen
-        self.case = {"crystal": {"name": cell}, "smat": np.eye(3, dtype=int).tolist()}
+        self.case = {"crystal": {"name": cell, "order": order, "order_seed": 3}, "smat": np.eye(3, dtype=int).tolist()}
         # constructor options that are part of the object's fixed identity (the fresh reference object gets the same ones)
         self.over = {} if fsf is None else {"frequency_scale_factor": float(fsf)}
         warnings.simplefilter("ignore", DeprecationWarning)
@@ -197,6 +197,10 @@ def queries(ph, with_thermal=True):
     ph.run_qpoints([[0, 0, 0]], nac_q_direction=[1.0, 0.3, 0.2] if has_nac else None)
     f0 = np.array(ph.get_qpoints_dict()["frequencies"][0])
     out["lam0"] = np.sign(f0) * (f0 / factor) ** 2
+    # the three cells of the object carry the same masses (everything that reads supercell / unit-cell masses - copy(), save(), random
+    # displacements, modulations - depends on it)
+    out["masses_super"] = np.array(ph.supercell.masses, float)
+    out["masses_unit"] = np.array(ph.unitcell.masses, float)
     if with_thermal:
         ph.run_mesh([2, 2, 2])
         ph.run_thermal_properties(t_min=300, t_max=300, t_step=10)
@@ -222,7 +226,11 @@ def fresh_from(w):
     ph = w.ph
     fr, _ = w.setup.build_phonopy(w.case, **w.over)
     if w.masses_last is not None:
-        fr.masses = np.array(w.masses_last).copy()
+        # the reference gets the final masses through the PhonopyAtoms constructor (per unit-cell atom, mapped with the maps of the untouched
+        # object), not through the setter under test
+        pr_, sc_ = fr.primitive, fr.supercell
+        unit_m = [float(np.array(w.masses_last)[pr_.p2p_map[pr_.s2p_map[sc_.u2s_map[i]]]]) for i in range(len(fr.unitcell))]
+        fr, _ = w.setup.build_phonopy(dict(w.case, masses=unit_m), **w.over)
     fr.force_constants = np.array(ph.force_constants, dtype="double", order="C").copy()
     if w.nac_last is not None:
         fr.nac_params = copy.deepcopy(w.nac_last)
@@ -241,6 +249,9 @@ def compare(a, b, scale):
         probs.append("group velocity differs by %.3e" % e)
     if "F" in a and abs(a["F"] - b["F"]) > 1e-9 * max(abs(b["F"]), 1e-3):
         probs.append("free energy differs by %.3e" % abs(a["F"] - b["F"]))
+    for k in ("masses_super", "masses_unit"):
+        if k in a and k in b and (a[k].shape != b[k].shape or np.abs(a[k] - b[k]).max() > 1e-12 * max(np.abs(b[k]).max(), 1e-300)):
+            probs.append("%s differ from the fresh object's: %s vs %s" % (k, np.round(a[k], 4).tolist()[:6], np.round(b[k], 4).tolist()[:6]))
     for k in ("band", "mesh"):
         if k in a and k in b:
             e = np.abs(np.sort(a[k], axis=-1) - np.sort(b[k], axis=-1)).max() if a[k].shape == b[k].shape else np.inf
@@ -263,7 +274,8 @@ def run_case(c):
 
     if c["kind"] == "histories":
         for hi, h in enumerate(c["batch"]):
-            w = World(h["cell"], h["init"], c["seed"] + hi, fsf=h.get("fsf"))
+            w = World(h["cell"], h["init"], c["seed"] + hi, fsf=h.get("fsf"), order=h.get("order", "asis"))
+            obs["interleaved_cells"] = obs.get("interleaved_cells", 0) + int(h.get("order") == "interleave")
             obs["with_frequency_scale_factor"] = obs.get("with_frequency_scale_factor", 0) + int(h.get("fsf") is not None)
             base = queries(w.ph, with_thermal=False)
             names = [OPS[o] for o in h["ops"]]
